@@ -6,7 +6,15 @@ import "verif/checker/internal/gen"
 
 func flagFlow(c *Ctx, flagName string) { cliFlag(c, flagName) }
 
+func buildSettings(c *Ctx) {
+	// the binary computes what the library computes under test: no //go:debug or go.mod setting that changes
+	// what go/types hands to moq (aliases)
+	gen.CheckBuildSettings(c.Run, c.Prog)
+	gen.PositiveControlBuild(c.Run, c.Prog)
+}
+
 func genMap(c *Ctx) {
+	buildSettings(c)
 	gen.CheckKinds(c.Run, c.Prog)
 	kindsTable(c)
 	lookupTable(c)
@@ -19,6 +27,7 @@ func genMap(c *Ctx) {
 }
 
 func genGeneric(c *Ctx) {
+	buildSettings(c)
 	gen.CheckKinds(c.Run, c.Prog)
 	kindsTable(c)
 	gen.CheckAliasAware(c.Run, c.Prog)
@@ -43,6 +52,7 @@ func genMocks(c *Ctx) {
 }
 
 func genCompile(c *Ctx) {
+	buildSettings(c)
 	gen.CheckKinds(c.Run, c.Prog)
 	kindsTable(c)
 	// the path an import is registered and printed under is the package's own (vendor prefix stripped,
